@@ -32,6 +32,9 @@ func main() {
 		genChain(r, "cs")
 	case "C14":
 		genChain(r, "ts")
+		// the same rule where the library applies it to a chain nobody handed to the validator directly: the timestamping step of Sign
+		c15ChainDefectsOnly = true
+		genC15(r)
 	case "C19":
 		genC19(r)
 	case "JWSREAD":
